@@ -14,7 +14,7 @@ a transaction (`tx=` thread:mode:depth:overlay size).  Keys are numbered `100 * 
     txset <thread> <k> <v>
     txend <thread> <c|r>
     attempt <t>
-    leave <t> <n|e|c>
+    leave <t> <n|e|c|g>
     giveup <t>
     tick <dt>
     funlock <key> <n>
@@ -30,7 +30,8 @@ structure St where
   ths  : List Nat
 
 def parseHow? (s : String) : Option How :=
-  if s = "n" then some .normal else if s = "e" then some .exc else if s = "c" then some .cancel else none
+  if s = "n" then some .normal else if s = "e" then some .exc else if s = "c" then some .cancel
+  else if s = "g" then some .closed else none
 
 def parseWait? (s : String) : Option Bool :=
   if s = "w" then some true else if s = "n" then some false else none
